@@ -78,13 +78,22 @@ def build(node, owned=None):
         A = build(node["arg"], owned)
         A2 = A if node.get("same", True) else build(node["arg"], owned)  # merely equal, not identical
         f = node["form"]
-        if f == "TA":
-            return A.T @ A2
-        if f == "HA":
-            return A.H @ A2
-        if f == "AT":
-            return A @ A2.T
-        return A @ A2.H
+        pair = {"TA": lambda: (A.T, A2), "HA": lambda: (A.H, A2), "AT": lambda: (A, A2.T)}.get(f, lambda: (A, A2.H))()
+        # optional further factors before/after the pair (a product that merely *contains* a Gram pair)
+        Ms = [build(c, owned) for c in node.get("head", [])] + list(pair) + [build(c, owned) for c in node.get("tail", [])]
+        if node.get("via", "fn") == "ctor" and len(Ms) > 2:
+            return ops.Product(*Ms)
+        if node.get("assoc") == "pair-first" and len(Ms) > 2:  # (A^H A) @ B, H @ (A^H A)
+            out = pair[0] @ pair[1]
+            for M in reversed([build(c, owned) for c in node.get("head", [])]):
+                out = M @ out
+            for M in [build(c, owned) for c in node.get("tail", [])]:
+                out = out @ M
+            return out
+        out = Ms[0]
+        for M in Ms[1:]:
+            out = out @ M
+        return out
     if k == "Sliced":
         A = build(node["arg"], owned)
         s0 = to_index(node["slices"][0], A.shape[0])
